@@ -106,15 +106,17 @@ inductive Cmd where
   | ff (dt : Nat)         -- server time passes (miniredis FastForward)
   | lockAsync (i : Nat)   -- Lock started in the background: first attempt now, then blocked
   | join (i : Nat)        -- wait for the background Lock: it retries now, else runs into its deadline
+  | observe (i : Nat)     -- read the context returned to client i
   deriving Repr
 
 inductive Res where
-  | acquired | notObtained | released | notHeld | blocked | advanced | misuse
+  | acquired | notObtained | released | notHeld | blocked | advanced | misuse | ctxLive | ctxCancelled | ctxNone
   deriving Repr, DecidableEq
 
 def Res.str : Res → String
   | .acquired => "acquired" | .notObtained => "not-obtained" | .released => "released"
   | .notHeld => "not-held" | .blocked => "blocked" | .advanced => "advanced" | .misuse => "misuse"
+  | .ctxLive => "ctx-live" | .ctxCancelled => "ctx-cancelled" | .ctxNone => "ctx-none"
 
 def phaseRes (s : State) (i : Nat) : Res :=
   match s.cl i with
@@ -167,6 +169,11 @@ def exec (p : Params) (s : State) : Cmd → State × Res
       | .trying _ _ _ dl' => (setCl { s2 with wall := dl' } i .failed, .notObtained)
       | _ => (s2, phaseRes s2 i)
     | _ => (s, phaseRes s i)
+  | .observe i =>
+    (s, match s.cl i with
+      | .holding _ => if s.ctxCancelled i then .ctxCancelled else .ctxLive
+      | .done _ => if s.ctxCancelled i then .ctxCancelled else .ctxLive
+      | _ => .ctxNone)
 
 def replay (p : Params) : State → List Cmd → List Res
   | _, [] => []
